@@ -106,10 +106,20 @@ def contexts(hole):
         ('nested', [ENV('center', [GR(C('textit', h()))])]),
         ('special', [special]),
         ('escaped-dollars', [T('\\$ a \\$')] + h() + [T('\\$ b \\$\\$')]),
+        # a named math environment directly inside another math region (split in equation, array in \[..\] or $..$):
+        # the context is math mode. Delimiter pairs do not nest in LaTeX: for them these two fall back to `top`.
+        ('in-math-env', [math_node(('env', 'equation'), [T('x ')] + h() + [T(' y')])] if envs_only(hole)
+         else [T('a ')] + h() + [T(' b')]),
+        ('in-display', [math_node(('math', 'displaymath'), [T('x ')] + h() + [T(' y')])] if envs_only(hole)
+         else [T('a ')] + h() + [T(' b')]),
     ]
 
 
-NCONTEXTS = 10
+def envs_only(hole):
+    return bool(hole) and all(x.kind == 'env' for x in hole)
+
+
+NCONTEXTS = 12
 
 
 def _doc(rng, nodes):
